@@ -566,6 +566,10 @@ def run_case(desc):
         nontrivial = True
     if desc['x'].get('order', 'C') != 'C':
         strata.append('x-' + desc['x']['order'])
+    if getattr(op, '_verif_pso_dense', False) and not op.is_functional:
+        # dense block operator with non-adjacent row entries, evaluated in
+        # place against a NaN-filled out
+        strata.append('pso-adjoint-dense')
     if desc['op']['opts'].get('large'):
         strata.append('large')
         if desc['x'].get('order') == 'strided' and not op.is_functional \
@@ -584,7 +588,7 @@ def run_case(desc):
 NEVER_OK = {'func.MoreauEnvelope', 'func.InfimalConvolution',
             'func.FunctionalDefaultConvexConjugate',
             'fprox.IndicatorNuclearNormUnitBall'}
-REQUIRED_STRATA = ['inplace', 'functional', 'large',
+REQUIRED_STRATA = ['inplace', 'functional', 'large', 'pso-adjoint-dense',
                    'large-x-and-out-strided', 'x-array', 'x-list', 'x-F',
                    'x-strided', 'out-F', 'out-strided'] + \
     ['junk-' + k for k in JUNK_X] + ['badout-' + k for k in BAD_OUT] + \
